@@ -12,17 +12,30 @@ open MongoModel MongoModel.Pipe MongoModel.Proofs.C11
 
 /-! ### `$match` -/
 
+/-- an accepted `$match` is the plain filter (on an empty input: the empty list) -/
+theorem matchStage_filterR {f : Val} {docs out : List Val} (h : matchStage f docs = .ok out) :
+    filterR (fun d => filterApplies (patch f) (patch d)) docs = .ok out := by
+  cases docs with
+  | nil =>
+    simp only [matchStage] at h
+    split at h
+    · cases h
+    · cases h; rfl
+  | cons d ds => exact h
+
 theorem matchStage_ok {f : Val} {docs out : List Val} (h : matchStage f docs = .ok out) :
     out.Sublist docs ∧
     (∀ d, d ∈ out ↔ d ∈ docs ∧ filterApplies (patch f) (patch d) = .ok true) ∧
     out = docs.filter (fun d => filterApplies (patch f) (patch d) == .ok true) :=
-  ⟨filterR_sublist h, filterR_mem h, (filterR_ok h).1⟩
+  have h' := matchStage_filterR h
+  ⟨filterR_sublist h', filterR_mem h', (filterR_ok h').1⟩
 
-/-- on stored (already normalised) documents `$match` runs the very test `find` runs -/
-theorem matchStage_eq_findDocs (f : Val) (docs : List Val) (hn : ∀ d ∈ docs, patch d = d)
-    (hne : docs ≠ []) : matchStage f docs = findDocs f docs := by
+/-- on stored (already normalised) documents `$match` runs the very test `find` runs — also on
+    an empty collection, where both validate the filter against `{}` -/
+theorem matchStage_eq_findDocs (f : Val) (docs : List Val) (hn : ∀ d ∈ docs, patch d = d) :
+    matchStage f docs = findDocs f docs := by
   cases docs with
-  | nil => exact absurd rfl hne
+  | nil => rfl
   | cons d ds =>
     simp only [matchStage, findDocs]
     exact filterR_congr _ (fun x hx => by rw [hn x hx])
